@@ -51,6 +51,10 @@ def _ops():
         "rm_foo": dict(kind="remove", py=f"r.remove('{SYM}')", model=f"c12.rm\t{SYM}", spec=("rm", SYM)),
         "def_zot": dict(kind="add", py=f"define_unit('{SYM2}', (3.0, 'k{SYM}'), prefixable=True, registry=r)",
                         model=f"c12.defunit\t{SYM2}\t{f(3.0)}\tk{SYM}\t1", spec=("def", SYM2, 3.0, "k" + SYM, True)),
+        # a user symbol under the spelling of a prefixed one (after a look-up of `kfoo` the key is a written-back
+        # entry: the explicit row must replace it for good — seeded change C12-c)
+        "add_kfoo": dict(kind="add", py=f"r.add('k{SYM}', 5.0, D.time)",
+                         model=f"c12.add\tk{SYM}\t{f(5.0)}\t{T}\t{f(0.0)}\t0", spec=("add", "k" + SYM, (5.0, "time", 0.0, False))),
         "modf_kfoo": dict(kind="modify", py=f"r.modify('k{SYM}', 7.0)", model=f"c12.modf\tk{SYM}\t{f(7.0)}", spec=("modf", "k" + SYM, 7.0)),
         "rm_kfoo": dict(kind="remove", py=f"r.remove('k{SYM}')", model=f"c12.rm\tk{SYM}", spec=("rm", "k" + SYM)),
         "u_foo": dict(kind="look", py=f"Unit('{SYM}', registry=r)", model=f"c12.unit\t{SYM}", spec=("noop",)),
